@@ -60,7 +60,10 @@ def doAdupdates (l : Line) : Option String := do
   let Ats ← Line.family l "At" m parseRatMat
   let ps ← Line.family l "p" m parsePSpec
   let stepsize ← l.rat? "stepsize"
-  let inner ← l.rats? "inner"
+  -- `in0=1/2` (scalar) or `in0=v:1/8,3/8` (element / array: pointwise)
+  let inner ← Line.family l "in" m (fun t =>
+    if t.startsWith "v:" then (parseRatList (t.drop 2).toString).map (InnerSS.pointwise (K := Rat) ∘ Vec.ofList)
+    else (parseRat t).map InnerSS.scalar)
   let rid ← l.nats? "rid"
   let cb ← l.get? "cb"
   let x0 ← l.rats? "x0"
@@ -70,8 +73,8 @@ def doAdupdates (l : Line) : Option String := do
   for A in As do shape? A (Mat.rows A) dv
   let P : AduP Rat RV RV :=
     { m := m, L := fun i => Mat.mulVec (fam As [] i), Ladj := fun i => Mat.mulVec (fam Ats [] i),
-      prox := fun i => (fam ps .id i).eval, stepsize := stepsize, inner := fam inner 0,
-      rid := fam rid 0, cbInner := cb = "inner" }
+      prox := fun i => (fam ps .id i).eval, stepsize := stepsize, inner := fam inner (.scalar 0),
+      mulW := Vec.mul, rid := fam rid 0, cbInner := cb = "inner" }
   let duals0 : Nat → RV := fun i => Vec.zero (Mat.rows (fam As [] i))
   match variant with
   | "opt" =>
